@@ -16,6 +16,9 @@ pub fn main(prop: &'static str, args: &Args) {
         if case["engine"] == "builtin" {
             std::process::exit(if crate::c07::replay(&case) { 0 } else { 1 });
         }
+        if case["engine"] == "builtin-spans" {
+            std::process::exit(if crate::c03b::replay(&case) { 0 } else { 1 });
+        }
         if case["engine"] == "algebra" {
             let ok = crate::c04::replay(&case, true, true);
             std::process::exit(if ok { 0 } else { 1 });
@@ -40,6 +43,12 @@ pub fn main(prop: &'static str, args: &Args) {
         let (t, extra) = crate::c04::explore("C03", depth, true, true);
         rep.set("algebra", extra);
         rep.absorb(t);
+        // built-in targets: faulty list members, array elements, map entries and scalar items
+        // among siblings, at every position
+        let t = crate::c03b::sweep();
+        rep.set("builtin_span_cases", json!(t.evaluations));
+        rep.absorb(t);
+        rep.require_counter("builtin_span_checked");
     }
     if prop == "C01" {
         // the wide receivers: all 216 field-option combinations under container configurations
